@@ -13,6 +13,10 @@ for d in sorted(glob.glob(VERIF + "/seeded/C*-*")):
         continue
     patch = d + "/patch_current.diff" if os.path.exists(d + "/patch_current.diff") and os.path.getsize(d + "/patch_current.diff") > 0 else d + "/patch.diff"
     meta = json.load(open(d + "/meta.json")) if os.path.exists(d + "/meta.json") else {}
+    if meta.get("status") in ("obsolete", "benign"):
+        rows.append((sid, meta["status"], meta.get("status_note", "")))
+        print(sid, meta["status"], flush=True)
+        continue
     if subprocess.run("git status --porcelain", cwd=REPO, shell=True, capture_output=True, text=True).stdout.strip():
         print("repo not clean"); sys.exit(2)
     ap = subprocess.run(["git", "apply", patch], cwd=REPO, capture_output=True, text=True)
@@ -29,6 +33,15 @@ for d in sorted(glob.glob(VERIF + "/seeded/C*-*")):
             why = [l for l in out.split("\n") if l.startswith("# ")]
             res = {"outcome": "detected" if r.returncode == 1 and vio else ("missed" if r.returncode == 0 else "check-error"),
                    "violation_lines": vio[:3], "what": [w[:260] for w in why[:3]], "no_failing_input": any("no-failing-input-found" in v for v in vio)}
+            if res["outcome"] == "missed":
+                # the quick tier explores less: try the thorough one before calling it missed
+                r = subprocess.run([VERIF + "/bin/check", pid, "--tier", "thorough"], cwd=VERIF, capture_output=True, text=True)
+                out = r.stdout + r.stderr
+                vio = [l for l in out.split("\n") if l.startswith("VIOLATION")]
+                why = [l for l in out.split("\n") if l.startswith("# ")]
+                if r.returncode == 1 and vio:
+                    res = {"outcome": "detected-thorough", "violation_lines": vio[:3], "what": [w[:260] for w in why[:3]],
+                           "no_failing_input": any("no-failing-input-found" in v for v in vio)}
     subprocess.run("git checkout -- . && git clean -fdq", cwd=REPO, shell=True)
     meta["detected_by"] = {"check": "bin/check %s --tier quick" % pid, "patch": os.path.basename(patch), **res}
     json.dump(meta, open(d + "/meta.json", "w"), indent=1)
